@@ -241,6 +241,52 @@ PROPS = {
     },
 }
 
+
+# --- modular closure -------------------------------------------------------------------------------------
+# A stub (external_body + contract) is only as good as the proof of that contract.  Every property check is
+# therefore closed under "home units": if one of its units uses the contract of a function whose body is
+# verified in another unit, that unit is made part of the check as well (lib/unit_needs.json is generated by
+# tools/stub_homes.py --write; tools/stub_homes.py without arguments audits the result, and bin/check
+# re-audits at run time on the units it actually built).
+KANI_HOMES = {
+    'parser::chunk_contains_8_digits': 'kani/swar.py',
+    'parser::chunk_to_u64': 'kani/swar.py',
+    "parser::impl<'a> AsciiDecLit<'a>::read_u64_unchecked": 'kani/prims.py',
+    "parser::impl<'a> AsciiDecLit<'a>::skip_n": 'kani/prims.py',
+}
+
+
+def _close():
+    import json as _json
+    import os as _os
+    f = _os.path.join(_os.path.dirname(_os.path.abspath(__file__)), 'unit_needs.json')
+    try:
+        needs = _json.load(open(f))
+    except Exception:
+        needs = {}
+    for pid, sp in PROPS.items():
+        units = list(sp['units'])
+        added = []
+        i = 0
+        while i < len(units):
+            for h in needs.get(units[i], []):
+                if h not in units:
+                    units.append(h)
+                    added.append(h)
+            i += 1
+        sp['units'] = units
+        sp['units_added_by_closure'] = added
+        if 'parser' in units:
+            sp.setdefault('kani', [])
+            sp.setdefault('kani_bounded', [])
+            if 'kani/swar.py' not in sp['kani']:
+                sp['kani'].append('kani/swar.py')
+            if 'kani/prims.py' not in sp['kani_bounded']:
+                sp['kani_bounded'].append('kani/prims.py')
+
+
+_close()
+
 COMMON_TRUSTED = [
     'Verus 0.2026.09.13 + Z3 (soundness of the verifier)',
     'rustc -Zunpretty=expanded prints the code that is compiled (macro expansion by the compiler itself)',
